@@ -1,6 +1,9 @@
 import Generated.GenLoaders
 import Props.GenCommon
 import Props.C19Gen
+import Proofs.OMap
+import Proofs.LoadersUnbounded
+import Proofs.SortTrim
 /-!
 # Props.GenLoaders — `entryLastN`, `entryLastNKeeping`, `entrySliceRange` (log_io.go) and `Difference` (entry/utils.go) = `lastN`, `lastNKeeping`, `drop`, `entryDifference`; no slice expression in them can panic
 
@@ -172,5 +175,91 @@ theorem fromJSON_eq (clockId : Bytes) (k : SortKind) (id : Bytes) (fetched : Lis
   | some v =>
     simp only [Option.isSome_some, Bool.true_and, Option.getD_some]
     by_cases h : v > -1 <;> simp [h]
+
+/-! ## the default loader: `fromMultihash` / `NewFromMultihash` around the fetch = `loadManifest` -/
+
+theorem inner_heads (x : Hash) : ∀ (M : List Hash) (acc : List Hash), M.Nodup →
+    M.foldl (fun heads h => if (h == x) = true then heads ++ [x] else heads) acc =
+      if M.contains x then acc ++ [x] else acc := by
+  intro M
+  induction M with
+  | nil => intro acc _; rfl
+  | cons m t ih =>
+    intro acc hnd
+    obtain ⟨hm, ht⟩ := List.nodup_cons.mp hnd
+    simp only [List.foldl_cons, List.contains_cons]
+    by_cases hx : m = x
+    · subst hx
+      have hnc : t.contains m = false := by
+        cases hc : t.contains m with
+        | false => rfl
+        | true => exact absurd (List.contains_iff_mem.mp hc) hm
+      simp only [beq_self_eq_true, if_true, Bool.true_or]
+      rw [ih _ ht, hnc]; rfl
+    · have h1 : (m == x) = false := by simpa using hx
+      have h2 : (x == m) = false := by simpa using (fun h => hx h.symm)
+      simp only [h1, Bool.false_eq_true, if_false, h2, Bool.false_or]
+      exact ih acc ht
+
+theorem heads_fold (M : List Hash) (hM : M.Nodup) : ∀ (ents : List Entry) (acc : List Hash),
+    ents.foldl (fun heads e => M.foldl (fun heads h => if (h == e.hash) = true then heads ++ [e.hash] else heads) heads) acc =
+      acc ++ (ents.filter (fun e => M.contains e.hash)).map (·.hash) := by
+  intro ents
+  induction ents with
+  | nil => intro acc; simp
+  | cons e t ih =>
+    intro acc
+    simp only [List.foldl_cons, inner_heads e.hash M _ hM, List.filter_cons]
+    by_cases hc : M.contains e.hash = true
+    · simp only [hc, if_true, ih, List.map_cons, List.append_assoc, List.singleton_append]
+    · simp only [hc, Bool.false_eq_true, if_false, ih]
+
+theorem head_entries_fold (E : List Entry) (hE : (hashes E).Nodup) : ∀ (hs : List Entry) (acc : List Entry),
+    (∀ e ∈ hs, e ∈ E) →
+    (hs.map (·.hash)).foldl (fun heads h => if (!(get? E h).isSome) = true then heads else heads ++ [(get? E h).getD default]) acc =
+      acc ++ hs := by
+  intro hs
+  induction hs with
+  | nil => intro acc _; simp
+  | cons e t ih =>
+    intro acc hin
+    have hg := get?_eq_of_mem hE (hin e List.mem_cons_self)
+    simp only [List.map_cons, List.foldl_cons, hg, Option.isSome_some, Bool.not_true, Bool.false_eq_true, if_false,
+      Option.getD_some]
+    rw [ih _ (fun x hx => hin x (List.mem_cons_of_mem _ hx))]
+    simp
+
+/-- **the default loader's glue, translated, is the model's `loadManifest`** (manifest heads and fetched entries
+    without repetitions; the fetch result is a parameter) -/
+theorem fromMultihash_eq (clockId : Bytes) (logSort fetchSort : SortKind) (id : Bytes) (manifestHeads : List Hash)
+    (fetched : List Entry) (nOpt : Option Int) (hF : (hashes fetched).Nodup) (hM : manifestHeads.Nodup) :
+    ∃ vals hs, Generated.Go.fromMultihashTail (beforeAsc fetchSort) nOpt manifestHeads fetched = some (vals, hs) ∧
+      newLog id clockId logSort (Generated.Go.newFromMultihashHeads vals hs).1 (Generated.Go.newFromMultihashHeads vals hs).2 =
+        loadManifest clockId logSort fetchSort id manifestHeads fetched (nOpt.getD (-1)) := by
+  -- the entries after sort-and-trim
+  obtain ⟨ents, hdef⟩ : ∃ e, e = sortTrim (beforeAsc fetchSort) (nOpt.getD (-1)) fetched := ⟨_, rfl⟩
+  have hentsND : (hashes ents).Nodup := by
+    rw [hdef]
+    unfold sortTrim
+    split
+    · have h1 := goSort_hashes_nodup (beforeAsc fetchSort) hF
+      exact h1.sublist ((lastN_sublist _ _).map _)
+    · exact hF
+  have htail : Generated.Go.fromMultihashTail (beforeAsc fetchSort) nOpt manifestHeads fetched =
+      some (ents, (ents.filter (fun e => manifestHeads.contains e.hash)).map (·.hash)) := by
+    unfold Generated.Go.fromMultihashTail Generated.Go.fromMultihashTail_join1
+    simp only [entryLastN_eq, heads_fold manifestHeads hM, List.nil_append]
+    rw [hdef]
+    unfold sortTrim
+    cases nOpt with
+    | none => simp
+    | some v =>
+      simp only [Option.isSome_some, Bool.true_and, Option.getD_some]
+      by_cases h : v > -1 <;> simp [h]
+  refine ⟨ents, _, htail, ?_⟩
+  unfold Generated.Go.newFromMultihashHeads loadManifest
+  simp only [← hdef]
+  have hom : omFromList ents = ents := omFromList_id hentsND
+  rw [hom, head_entries_fold ents hentsND _ [] (fun e he => (List.mem_filter.mp he).1), List.nil_append]
 
 end Model.SlicesGen
